@@ -32,6 +32,7 @@ def describe(model, rng=None, absent=()):
         "wes": wes,
         "absent": list(absent),
         "nonempty": bool(model.nodes),
+        "links": sorted(model.links)[-12:] if getattr(model, "links", None) else [],
     }
 
 
@@ -46,12 +47,28 @@ def q(fn, *a, **kw):
         return ("raised", type(e).__name__, str(e)[:120])
 
 
-def observe(t, desc, light=False):
-    """Returns an ordered list of (question, outcome)."""
+class _Current(object):
+    """Attribute access goes to whatever index object `get()` returns at that moment."""
+
+    def __init__(self, get):
+        self._get = get
+
+    def __getattr__(self, name):
+        return getattr(self._get(), name)
+
+
+def observe(t, desc, light=False, interrupt=None):
+    """Returns an ordered list of (question, outcome).  `t` is an index or a callable giving the
+    current one; `interrupt` = (k, fn): fn() is called between the k-th question and the next
+    (e.g. a close and reopen in the middle of a sequence of queries)."""
     out = []
+    if callable(t) and not hasattr(t, "pages_iter"):
+        t = _Current(t)
 
     def ask(name, fn, *a, **kw):
         out.append((name, q(fn, *a, **kw)))
+        if interrupt is not None and len(out) == interrupt[0]:
+            interrupt[1]()
 
     ask("pages", lambda: sorted((lru, node.is_crawled()) for node, lru in t.pages_iter()))
     ask("prefixes", lambda: sorted((lru, node.webentity()) for node, lru in t.webentity_prefix_iter()))
@@ -67,6 +84,12 @@ def observe(t, desc, light=False):
                 ask("network_slow(out=%s,auto=%s)" % (out_, auto), t.get_webentities_links_slow, out=out_, include_auto=auto)
     for l in desc["pages"]:
         ask("page_links %r" % l, lambda l=l: sorted(map(tuple, t.get_page_links(l))))
+    # the two ends of a link asked one after the other, with a size query in between (the order in
+    # which a caller follows links; the same on both twins)
+    for a_, b_ in desc.get("links", []):
+        ask("page_links(source) %r" % (a_,), lambda l=a_: sorted(map(tuple, t.get_page_links(l))))
+        ask("count_links (between the two ends)", t.count_links)
+        ask("page_links(target) %r" % (b_,), lambda l=b_: sorted(map(tuple, t.get_page_links(l))))
     for l in desc["nodes"] + desc["absent"]:
         ask("retrieve_prefix %r" % l, t.retrieve_prefix, l)
         if not light:
